@@ -57,7 +57,7 @@ def protoStream? : Tree → Option (LabelShape × Nat)
   | _ => none
 
 def fieldKind? : Nat → Option FieldKind
-  | 1 => some .str | 2 => some .int | 3 => some .float | 4 => some .other | _ => none
+  | 1 => some .str | 2 => some .int | 3 => some .float | 4 => some .other | 5 => some .uint | _ => none
 
 def influxLine? : Tree → Option InfluxLine
   | .l [.n 0] => some .bad
@@ -102,7 +102,7 @@ def zspan? : Tree → Option ZSpan
   | _ => none
 
 def okv? : Tree → Option OKV
-  | .l [.n k, v] => do some ⟨k, ← anyv? v⟩
+  | .l [.n k, v, st] => do some ⟨k, ← anyv? v, ← bool? st⟩
   | _ => none
 
 def optKvs? : Tree → Option (Option (List OKV))
